@@ -43,7 +43,7 @@ THEOREMS = [
     "callId_key_roundtrip_computed", "taskId_dotted_func_refutation", "taskSep_matches", "spellings_same_arguments",
     "spellings_same_identity", "batch_is_spelling", "batch_same_identity", "batch_override_fixed",
     "batch_identity_refutation_old", "batch_override_refutation_old", "external_iff",
-    "serialize_routing", "store_invariant", "cds_roundtrip", "cds_roundtrip_history", "reference_content_addressed", "fresh_process_resolves", "fresh_process_resolves_after_foreign_purge",
+    "serialize_routing", "store_invariant", "cds_roundtrip", "cds_roundtrip_history", "reference_content_addressed", "fresh_process_resolves", "fresh_process_resolves_after_foreign_purge", "fault_never_changes_representation",
     "reserved_prefix_refutation", "lru_alias_refutation", "reference_stable_refutation", "reference_stable_partial", "cache_size_zero_refutation", "json_roundtrip",
     "reserved_keys_distinct", "json_tuple_refutation", "json_reserved_key_refutation",
     "json_nested_special_refutation",
@@ -526,6 +526,43 @@ def corr_cds(ctx: Ctx, drv: LeanDriver) -> None:
                         except KeyError:
                             impl.append("err keyerror")
                             op = "ser-keyerror"
+                    elif r < 0.49:
+                        # serialize while the backend write fails once (locked database, dropped connection)
+                        import sqlite3 as _sq
+                        a = rng.randrange(len(objs))
+                        lines.append(f"cds.serf {a}")
+                        real_store = cds._store
+                        hit = {"n": 0}
+
+                        def failing_store(key, value, real_store=real_store, hit=hit):  # type: ignore[no-untyped-def]
+                            hit["n"] += 1
+                            raise _sq.OperationalError("database is locked")
+
+                        cds._store = failing_store  # type: ignore[method-assign]
+                        try:
+                            d = cds.serialize(objs[a])
+                            impl.append("ok " + tok(d))
+                            datas.append(d)
+                            op = "serf-ok-after-failed-write" if hit["n"] else "serf-no-write"
+                        except _sq.OperationalError:
+                            impl.append("err storefault")
+                            op = "serf-raises"
+                        except KeyError:
+                            impl.append("err keyerror")
+                            op = "serf-keyerror"
+                        finally:
+                            del cds._store
+                        if op == "serf-ok-after-failed-write":
+                            # oracle: what comes back when the write failed must be what comes back when it does not
+                            clean = cds.serialize(objs[a])
+                            lines.append(f"cds.ser {a} 0")
+                            impl.append("ok " + tok(clean))
+                            datas.append(clean)
+                            if clean != d:
+                                ctx.report(f"representation-depends-on-storage-fault:{ser_name}",
+                                           f"[{kind}/{ser_name}/{conf}] serialize() of the same value gives {d[:50]!r} while the backend write fails and {clean[:50]!r} when it works: the serialized "
+                                           f"argument, and with it the call identity, depends on a transient storage fault",
+                                           {"kind": "store-fault", "serializer": ser_name, "backend": kind, "conf": conf, "value": pkl(objs[a])})
                     elif r < 0.8:
                         d = rng.choice(datas)
                         lines.append(f"cds.res {tok(d)}")
